@@ -42,7 +42,7 @@ class URI(object):
     You can write the protocol in lowercase if you like (``pyro:...``) but it will
     automatically be converted to uppercase internally.
     """
-    uriRegEx = re.compile(r"(?P<protocol>[Pp][Yy][Rr][Oo][a-zA-Z]*):(?P<object>\S+?)(@(?P<location>.+))?$")
+    uriRegEx = re.compile(r"(?P<protocol>[Pp][Yy][Rr][Oo][a-zA-Z]*):(?P<object>\S+?)(@(?P<location>.*))?$")
 
     def __init__(self, uri):
         if isinstance(uri, URI):
@@ -65,7 +65,9 @@ class URI(object):
                 raise errors.PyroError("invalid uri")
             self._parseLocation(location, None)
         elif self.protocol == "PYROMETA":
-            self.object = set(m.strip() for m in self.object.split(","))
+            self.object = set(m.strip() for m in self.object.split(",")) - {""}
+            if not self.object:
+                raise errors.PyroError("invalid uri (no metadata tags)")
             self._parseLocation(location, config.NS_PORT)
         else:
             raise errors.PyroError("invalid uri (protocol)")
@@ -102,7 +104,7 @@ class URI(object):
     @property
     def location(self):
         """property containing the location string, for instance ``"servername.you.com:5555"``"""
-        if self.host:
+        if self.host is not None:
             if ":" in self.host:  # ipv6
                 return "[%s]:%d" % (self.host, self.port)
             else:
@@ -114,7 +116,7 @@ class URI(object):
 
     def __str__(self):
         if self.protocol == "PYROMETA":
-            result = "PYROMETA:" + ",".join(self.object)
+            result = "PYROMETA:" + ",".join(sorted(self.object))
         else:
             result = self.protocol + ":" + self.object
         if self.location:
@@ -140,6 +142,8 @@ class URI(object):
 
     def __setstate__(self, state):
         self.protocol, self.object, self.sockname, self.host, self.port = state
+        if self.protocol == "PYROMETA" and not isinstance(self.object, set):
+            self.object = set(self.object)    # some serializers turn the tag set into a list
 
 
 class _ExceptionWrapper(object):
